@@ -15,41 +15,41 @@ CHECKS = {
                   'decoded by the real parser and compared with the structured message that was printed',
         text='Every line the libwayland printer model can emit within the bound (all argument lists to length 2/3 over '
              'the value tokens, every kind at every position to 20, hostile string bodies, numeric lattices, negatives) '
-             'is decoded by the real parse.message and compared field by field with the message it denotes.',
+             'is decoded by the real parse.message and compared field by field with the message it denotes. Lines are also sent through the parser loop (strings of 100 to 70000 characters) and through the real command line in file mode (non-ASCII strings).',
         ref='3/C01', engine='PROD'),
     'C02': dict(
         technique='explicit-state BFS over well-formed message histories executed on the real log pipeline, '
                   'merged on a reference object table, oracle on every transition',
-        text='Well-formed single-connection histories (create by request/event/bind to two interfaces, delete_id, use, mention, foreign delete_id; client and server side, three timestamp shapes, with and without a leading get_registry) are explored to the stated depth merged on a reference object table AND unmerged to a smaller depth; every output line must carry the labels the reference predicts, the object table is compared through the Connection interface in every state; identifiers closed and reopened are covered by a BFS over the connection-id interface.',
+        text='Well-formed single-connection histories (create by request/event/bind to two interfaces, delete_id, use, mention, foreign delete_id; client and server side, three timestamp shapes, with and without a leading get_registry) are explored to the stated depth merged on a reference object table AND unmerged to a smaller depth; every output line must carry the labels the reference predicts, the object table is compared through the Connection interface in every state; identifiers closed and reopened are covered by a BFS over the connection-id interface. Further history variants: stamps that wrap, microsecond-grained stamps, decorated creation messages, the top of the server id range, creation by an event on a destroyed object; one chain of 520/1100 reuses of an id.',
         ref='3/C02', engine='BFS'),
     'C03': dict(
         technique='explicit-state BFS over well-formed histories (client- and server-side logs, several timestamp '
                   'shapes) with a reference lifetime model checked in every reached state',
-        text='Same exploration as C02; in every reached state: alive flags of all incarnations, at most one alive per id, monotone death, presence / subject / lifespan of the destruction annotation on every line, and the listing after the end of input repeats the live lines exactly.',
+        text='Same exploration as C02; in every reached state: alive flags of all incarnations, at most one alive per id, monotone death, presence / subject / lifespan of the destruction annotation on every line, and the listing after the end of input repeats the live lines exactly. (Stamps that run backwards are left to C02: C03 quantifies over non-decreasing stamps.)',
         ref='3/C03', engine='BFS'),
     'C04': dict(
         technique='exhaustive enumeration of all order-preserving interleavings of per-connection scripts + '
                   'explicit-state BFS over open/message/close on the connection-id interface, run on the real pipeline',
-        text='Every interleaving of 2-4 per-connection scripts that use the same object ids (also with all-equal timestamps and with strings quoting tagged log lines): each projection equals its solo run and its reference object table; names, roles, notices and the listing are checked absolutely. A BFS over open/message/close on the connection-id interface (merged and unmerged) covers re-opened, unknown and twice-closed ids; the real CLI runs under several hash seeds.',
+        text='Every interleaving of 2-4 per-connection scripts that use the same object ids (also with all-equal timestamps and with strings quoting tagged log lines): each projection equals its solo run and its reference object table; names, roles, notices and the listing are checked absolutely. A BFS over open/message/close on the connection-id interface (merged and unmerged) covers re-opened, unknown and twice-closed ids; the real CLI runs under several hash seeds. Scripts include tags whose first line cannot be taken in, ids mentioned before their creation and a connection without any recorded message; per connection, `list *` and a capped listing must show and count exactly that connection\'s lines.',
         ref='3/C04', engine='ILV+BFS'),
     'C14': dict(
         technique='exhaustive enumeration of all letter indexes below 475254 (+ lattice to 26^8) and of every label '
                   'of every object in all bounded histories, each fed back as a matcher to the real controller',
         text='number<->letters conversion is compared with the by-construction sequence for every index through four '
              'letters; every displayed label in every explored history/interleaving is used as `X: label` matcher and must '
-             'select exactly the reference set of lines, also after a session in which single connections were watched.',
+             'select exactly the reference set of lines, also after a session in which single connections were watched. One id is reused 9711 times to reach the labels that spell all/inf/nan/new/nil; labels of two connections are combined in one matcher; a line the tool displays under a connection name must be selected by that name.',
         ref='3/C14', engine='PROD'),
     'C08': dict(
         technique='deviation-bounded exhaustive enumeration (inserted chatter lines at every position, missing final '
                   'newline, truncation at every character) of streams fed to the real parser loop through an instrumented reader',
-        text='5 well-formed base streams (both tags, empty titles, gaps, strings with brackets), every placement of <=1/<=2 chatter lines from an alphabet of 15 (incl. \\x0c, U+2028, a 20000-character line), both --supress settings, every truncation point, and the real pipe-mode entry point reading one line per read: item-for-item conservation against the clean twin, pacing at every request for input, prefix + closed notices under truncation.',
+        text='5 well-formed base streams (both tags, empty titles, gaps, strings with brackets), every placement of <=1/<=2 chatter lines from an alphabet of 15 (incl. \\x0c, U+2028, a 20000-character line), both --supress settings, every truncation point, and the real pipe-mode entry point reading one line per read: item-for-item conservation against the clean twin, pacing at every request for input, prefix + closed notices under truncation. Every base line must come out as its decoded message (never as a complaint); base streams include a late get_registry, messages only the newest shipped description has, a NULL string, messages after a protocol error; the real command line reads the same stream from a regular file and from a named pipe.',
         ref='3/C08', engine='DEV'),
     'C16': dict(
         technique='exhaustive product enumeration of logs over a microsecond gap lattice x visibility x time shift x '
                   'decimal mark x view, executed on the real pipeline, oracle in exact integer arithmetic',
         text='All logs of 3/4 messages with gaps from {0,.4,.999999,1,1.000001,1.2,2.5}s (and, with stamped non-message lines first, a string quoting a stamped line, or plain, from {-.003,0,.999999,1.000001,2.5}s), every shown/hidden pattern, '
              '4/10 constant shifts, both decimal marks, live view and list, 1-2 connections: displayed times and the '
-             'presence/value of every gap separator must equal the exact reference.',
+             'presence/value of every gap separator must equal the exact reference. Empty listings between live messages, gaps of -2.5 s and 2200 s.',
         ref='3/C16', engine='PROD'),
     'C05': dict(
         technique='exhaustive product enumeration of matcher expressions built together with their denotation, '
@@ -57,24 +57,24 @@ CHECKS = {
         text='Every well-formed combination of connection x object x name x argument atoms, comma/! lists of '
              'representative patterns and respellings (blanks, redundant brackets) is executed on the real matcher via '
              '`list`; the selected lines must equal a three-valued denotational reference; parsed vs simplified matcher '
-             'are cross-checked through the API.',
+             'are cross-checked through the API. The universe has negative values, strings differing in inner blanks and an untyped nil after a typed one; atoms include overlapping wildcard affixes, alternatives that print alike, connection-only patterns; a second part reuses one id 60/720 times and asks for every incarnation by its letters.',
         ref='3/C05', engine='PROD'),
     'C06': dict(
         technique='explicit-state BFS over message/command histories on the real controller, unmerged to small depth '
                   'and merged deeper, against an unfiltered twin pipeline and a reference filter',
-        text="All histories of message events on two connections (matching / non-matching / creating / destroying / on never-created objects / announcing an app id) and filter / connection commands (incl. failing ones) to the bound, from 4 initial filters, unmerged and merged: after every message the filtered view shows exactly the twin's line iff the reference filter and selection hold; the selection shown by the tool is compared with the reference after every command; recording is compared in every state and on a 70 000-message session.",
+        text="All histories of message events on two connections (matching / non-matching / creating / destroying / on never-created objects / announcing an app id) and filter / connection commands (incl. failing ones) to the bound, from 4 initial filters, unmerged and merged: after every message the filtered view shows exactly the twin's line iff the reference filter and selection hold; the selection shown by the tool is compared with the reference after every command; recording is compared in every state and on a 70 000-message session. An unmerged search over creations and destructions of two object types under a `.destroyed` filter; `list` with a connection prefix must not change the selection.",
         ref='3/C06', engine='BFS'),
     'C11': dict(
         technique='exhaustive product enumeration of list queries (history x filter x selection x matcher x cap), '
                   'repeated and interleaved, on the real controller against a reference list()',
         text='For histories of 0/1/12/56 messages, 3 current filters, 3 selections, matchers with hand denotations and caps '
              '{absent,0,1,2,k-1,k,k+1,99}: listed lines = reference (last N under a cap), counts add up, and '
-             'filter/breakpoint/selection/recorded list are unchanged.',
+             'filter/breakpoint/selection/recorded list are unchanged. A second part demands that the record seen per connection, with none selected and in the connection listing agree (also for lines the tool cannot take in, empty titles, after re-selecting all); a third that blanks inside quoted strings of a typed matcher are kept.',
         ref='3/C11', engine='PROD'),
     'C12': dict(
         technique='exhaustive enumeration of all filter/breakpoint command sequences to the bound from 3 initial '
                   'matchers on the real controller, oracle = accumulated (alternatives, exclusions) reference',
-        text='Every command sequence of length <=3/<=4 over 18 commands (alternatives, exclusions, both, *, !, bracketed, print-alike patterns, malformed incl. non-ASCII, blank) is applied to filter and breakpoint (also with the breakpoint sequence rotated so that the two differ); the live view and the Stopped-at notices over the universe equal the reference accumulation (three-valued); malformed input changes nothing; an explicit `list X` afterwards is judged on X alone.',
+        text='Every command sequence of length <=3/<=4 over 18 commands (alternatives, exclusions, both, *, !, bracketed, print-alike patterns, malformed incl. non-ASCII, blank) is applied to filter and breakpoint (also with the breakpoint sequence rotated so that the two differ); the live view and the Stopped-at notices over the universe equal the reference accumulation (three-valued); malformed input changes nothing; an explicit `list X` afterwards is judged on X alone. Connection-qualified commands; a part in which the messages are recorded first and `list` is asked only after the first and the last command; initial matchers come through the tool\'s own parse_args.',
         ref='3/C12', engine='BFS'),
     'C17': dict(
         technique='lock-step explicit-state BFS over a (colour on, colour off) pair of real sessions driven by the '
@@ -82,14 +82,14 @@ CHECKS = {
         text='After every step of every explored history (log lines of every construct, every command form) the '
              'coloured output with escape sequences removed must equal the uncoloured output on both streams and in log '
              'records, and the uncoloured run emits no escape sequence of its own; every coloured fragment printed is fed '
-             'back coloured and stripped to twin sessions, which must behave identically; the real command line, on a pipe and on a pseudo-terminal, with colour disabled and 10 well- and malformed -f/-b values, prints no escape sequence.',
+             'back coloured and stripped to twin sessions, which must behave identically; the real command line, on a pipe and on a pseudo-terminal, with colour disabled and 10 well- and malformed -f/-b values, prints no escape sequence. The pair has a breakpoint from the start; pasted text also goes through the interactive prompt; chatter with characters some splitters take for line ends.',
         ref='3/C17', engine='BFS'),
     'C07': dict(
         technique='exhaustive enumeration of every shipped interface x message x argument position (API and output '
                   'lines) and of all load orders of synthetic multi-version descriptions, against an independent XML reader',
         text='Exhaustive in both tiers: every argument of every message of all ~260 shipped interfaces is looked up '
              'through the API and displayed through the real pipeline; every enum-typed argument is tried with all entries, '
-             'unions, 0, -1, max+1, 2^31; synthetic versions 1..3/1..4 are loaded in every permutation.',
+             'unions, 0, -1, max+1, 2^31; synthetic versions 1..3/1..4 are loaded in every permutation. Five system installations of descriptions (none, older, newer, twins) are presented through the protocol module\'s `os`; synthetic files test qualified enum references to multi-version holders and enum-only interfaces; NULL strings of all allow-null string arguments.',
         ref='3/C07', engine='PROD'),
     'C19': dict(
         technique='exhaustive product enumeration of argument vectors (units: flags, clusters, valued options with '
@@ -98,7 +98,7 @@ CHECKS = {
         text='All vectors of <=3/<=4 units over 35 units with at most two markers: outcome class (error / usage / ok), '
              'mode, forwarded words verbatim, own words, flag effects and -f/-b matchers are compared with the reference; in '
              'GDB mode the recorded gdb command must end with the forwarded words and its python command must set sys.argv '
-             'to the own words word for word.',
+             'to the own words word for word. Words of other programs (-rf, -geometry), option values spelling a marker, empty values, `--`, a child started with standard output closed; nothing may stand between the tool\'s own gdb command and the forwarded words; a repeated -f/-b is treated as unspecified.',
         ref='3/C19', engine='PROD'),
     'C18': dict(
         technique='exhaustive product enumeration of byte-token sequences as log input in file / pipe / run mode, of '
@@ -107,7 +107,7 @@ CHECKS = {
         text='Every input within the bounds is run: logs must be consumed with every opened connection closed and nothing '
              'but SystemExit leaving the entry points (20 s alarm); every matcher string is accepted or rejected with a '
              'diagnostic and accepted ones are simplified, printed and evaluated on diverse messages; every command line '
-             'produces output or an error line and leaves the session usable. A slice runs the real CLI under C and C.utf8.',
+             'produces output or an error line and leaves the session usable. A slice runs the real CLI under C and C.utf8. Every command line is typed twice; sessions with shared application ids and an overlarge time stamp; a program that closes its standard error and lingers.',
         ref='3/C18', engine='PROD'),
     'C09': dict(
         technique='exhaustive product enumeration of libwayland closures laid out in real (ctypes) memory and read by '
@@ -116,7 +116,7 @@ CHECKS = {
         text='Closures for every signature to length 2/3, every kind at every position to 20, the array x follower '
              'table, value lattices, ?/version placements, client/server x invoke/dispatch/send/queue are decoded by the '
              'real extract.* and compared with a reference reading, and cross-checked against the printer model decoded '
-             'by the real log parser; a scenario history is run through both modes after resolution.',
+             'by the real log parser; a scenario history is run through both modes after resolution. Closures of a process that is client and server at once (the other dispatcher further out on the stack).',
         ref='3/C09', engine='PROD',
         note=TRUSTED + ' The GDB Python API is modelled (mc/fakegdb/gdb.py); the thorough tier replays 680+ closures in '
              'the installed GDB 13.1 and requires identical plugin output.'),
@@ -124,19 +124,19 @@ CHECKS = {
         technique='explicit-state BFS over plugin event histories (messages, wl commands, continue) on the real plugin '
                   'and controller in a GDB API model, merged on the reference pause machine; exhaustive enumeration of '
                   'command lists for the terminal prompt loop',
-        text='Plugin event histories (messages incl. orphan objects on three connections, connection destructions, 19 wl commands via `wl` / `wl<cmd>` incl. a connection-qualified breakpoint, continue) from 2 initial breakpoints, merged on the reference pause machine and unmerged: stop() returns True iff the reference breakpoint (C12 accumulation, hand denotations) and selection hold, with exactly one Stopped-at notice; GDB is told quit / continue / nothing as the reference says; selection and breakpoint shown by the tool equal the reference after every command. The prompt loop of file/run mode asks exactly until resume or quit. Thorough: command schedules are played in the real GDB.',
+        text='Plugin event histories (messages incl. orphan objects on three connections, connection destructions, 19 wl commands via `wl` / `wl<cmd>` incl. a connection-qualified breakpoint, continue) from 2 initial breakpoints, merged on the reference pause machine and unmerged: stop() returns True iff the reference breakpoint (C12 accumulation, hand denotations) and selection hold, with exactly one Stopped-at notice; GDB is told quit / continue / nothing as the reference says; selection and breakpoint shown by the tool equal the reference after every command. The prompt loop of file/run mode asks exactly until resume or quit. Thorough: command schedules are played in the real GDB. Events: messages on three connections incl. further surfaces and an application id equal to another connection\'s name, connection destructions, one idle minute of wall-clock time.',
         ref='3/C10', engine='BFS'),
     'C15': dict(
         technique='explicit-state BFS over libwayland events (messages on 2 addresses from 2 threads, destructions of '
                   'known / closed / never-seen connections) on the real plugin in a GDB API model, merged on a reference '
                   'connection registry; depth-4 histories replayed in the real GDB',
-        text='Every event history to depth 5/7 merged on a reference registry and to depth 3/4 unmerged: messages on 2 addresses from 2 threads (first message get_registry sent / received / none, late get_registry, orphan objects), destructions of known / closed / never-seen connections, reconnects at a new address; connections open and close as the reference says with fresh object tables, nothing escapes the breakpoint handlers (disabled breakpoints do not fire, as in GDB), which never halt the program. Thorough: depth-4 histories replayed in the real GDB.',
+        text='Every event history to depth 5/7 merged on a reference registry and to depth 3/4 unmerged: messages on 2 addresses from 2 threads (first message get_registry sent / received / none, late get_registry, orphan objects), destructions of known / closed / never-seen connections, reconnects at a new address; connections open and close as the reference says with fresh object tables, nothing escapes the breakpoint handlers (disabled breakpoints do not fire, as in GDB), which never halt the program. Thorough: depth-4 histories replayed in the real GDB. Connections that begin with get_registry bind an id to different interfaces in different orders and use registries with different ids; one session of 1010/3000 short-lived connections beside an old open one; model threads other than the first have no name.',
         ref='3/C15', engine='BFS'),
     'C13': dict(
         technique='stateless exploration of all schedules (main, helper thread, child when started with Popen) of the real run_program with bounded preemptions '
                   '(settrace baton scheduler, model pipe with per-holder write ends, model time, scripted child that may close its stderr and linger) + deviation-bounded enumeration of short reads + '
                   'the real command line in three modes under several hash seeds',
-        text="Every 2-thread schedule of the real run_program with <=2/<=3 preemptions (a scheduling point at every line of runner.py and every pipe operation): no deadlock or assertion, the file-mode twin's output, the child's status, the prompt after all output; every placement of <=2/<=3 cuts at every byte offset leaves the output unchanged; the real CLI gives identical stdout/stderr in file, pipe and run mode across hash seeds, with writes split inside a character, marker-like program arguments, any parent WAYLAND_DEBUG, and returns the child's exit status (all 256 in the thorough tier).",
+        text="Every 2-thread schedule of the real run_program with <=2/<=3 preemptions (a scheduling point at every line of runner.py and every pipe operation): no deadlock or assertion, the file-mode twin's output, the child's status, the prompt after all output; every placement of <=2/<=3 cuts at every byte offset leaves the output unchanged; the real CLI gives identical stdout/stderr in file, pipe and run mode across hash seeds, with writes split inside a character, marker-like program arguments, any parent WAYLAND_DEBUG, and returns the child's exit status (all 256 in the thorough tier). The scripted child may close its standard error and linger (model time); real children: a lingering one, a bare program name (argv[0] read back), a program path with blanks and quotes, empty-string arguments, `--` among the arguments; the three modes are also compared under -f and -b.",
         ref='3/C13', engine='ILV+DEV'),
 }
 
